@@ -8,10 +8,26 @@ CONSTANTS Keys, Vals, K
 Parts == {1, 2, 3}
 VARIABLES acc, created, reverted, blind, forced, hist
 R(S) == RandomElement(S)
-RandSubs == {<<k, R(Vals)>> : k \in {x \in Keys : R(1..2) = 1}}
+\* Random draws: a zero-arity definition containing RandomElement is evaluated once and cached by TLC (hence
+\* the dummy `tag` parameters), and lazily built values may be re-evaluated at every use (hence sequences
+\* built eagerly with Append and bound through singleton sets).
+RECURSIVE SortedSeq(_)
+SortedSeq(S) == IF S = {} THEN <<>>
+                ELSE LET m == CHOOSE x \in S : \A y \in S : x <= y
+                         rest == SortedSeq(S \ {m})
+                     IN <<m>> \o rest
+KeySeq == SortedSeq(Keys)
+RECURSIVE RandSubsSeq(_, _)
+RandSubsSeq(ks, tag) == IF ks = <<>> THEN <<>>
+                        ELSE LET rest == RandSubsSeq(Tail(ks), tag)
+                             IN IF R(1..2) = 1 THEN <<<<Head(ks), R(Vals)>>>> \o rest ELSE rest
+RECURSIVE RandBaseSeq(_, _, _)
+RandBaseSeq(p, ks, tag) == IF ks = <<>> THEN <<>>
+                           ELSE LET rest == RandBaseSeq(p, Tail(ks), tag)
+                                IN IF R(1..3) # 1 THEN <<<<p, Head(ks), R(Vals)>>>> \o rest ELSE rest
 SInit == /\ acc = {} /\ created = FALSE /\ reverted = FALSE /\ blind = {} /\ forced = {}
-         /\ hist = <<[a |-> "init", p |-> 0, k |-> 0, v |-> 0,
-                      e |-> {<<p, k, R(Vals)>> : p \in {1, 2}, k \in {x \in Keys : R(1..3) # 1}}]>>
+         /\ \E tag \in 1..64 : \E e1 \in {RandBaseSeq(1, KeySeq, tag)}, e2 \in {RandBaseSeq(2, KeySeq, tag)} :
+              hist = <<[a |-> "init", p |-> 0, k |-> 0, v |-> 0, e |-> e1 \o e2]>>
 \* after a revert, blind-written locations that were not force-written are not touched (see Track.tla)
 OkLoc(p, k) == ~reverted \/ <<p, k>> \notin (blind \ forced)
 Op(a, p, k, v, e) == [a |-> a, p |-> p, k |-> k, v |-> v, e |-> e]
@@ -19,23 +35,24 @@ SNext ==
   /\ Len(hist) <= K
   \* bound variables (not LET definitions, which TLC would re-evaluate at every use) fix the random draws
   /\ \E c \in {R(1..20)}, p \in {IF created THEN R(Parts) ELSE R({1, 2})}, k \in {R(Keys)},
-        lim \in {R(0..(Cardinality(Keys) + 1))}, fv \in {R(Vals)}, fl \in {R({x \in acc \cup {<<1, 1>>} : x[1] # 3})} :
-        \/ /\ c \in 1..3 /\ OkLoc(p, k) /\ hist' = Append(hist, Op("get", p, k, 0, {})) /\ acc' = acc \cup {<<p, k>>} /\ UNCHANGED <<created, reverted, blind, forced>>
-        \/ /\ c \in 4..7 /\ OkLoc(p, k) /\ hist' = Append(hist, Op("set", p, k, fv, {})) /\ acc' = acc \cup {<<p, k>>}
+        lim \in {R(0..(Cardinality(Keys) + 1))}, fv \in {R(Vals)}, fl \in {R({x \in acc \cup {<<1, 1>>} : x[1] # 3})},
+        subs \in {RandSubsSeq(KeySeq, Len(hist))} :
+        \/ /\ c \in 1..3 /\ OkLoc(p, k) /\ hist' = Append(hist, Op("get", p, k, 0, <<>>)) /\ acc' = acc \cup {<<p, k>>} /\ UNCHANGED <<created, reverted, blind, forced>>
+        \/ /\ c \in 4..7 /\ OkLoc(p, k) /\ hist' = Append(hist, Op("set", p, k, fv, <<>>)) /\ acc' = acc \cup {<<p, k>>}
            /\ blind' = (IF <<p, k>> \in acc THEN blind ELSE blind \cup {<<p, k>>}) /\ UNCHANGED <<created, reverted, forced>>
-        \/ /\ c \in 8..9 /\ OkLoc(p, k) /\ hist' = Append(hist, Op("remove", p, k, 0, {})) /\ acc' = acc \cup {<<p, k>>} /\ UNCHANGED <<created, reverted, blind, forced>>
-        \/ /\ c \in 10..11 /\ ~reverted /\ hist' = Append(hist, Op("scan", p, 0, lim, {})) /\ UNCHANGED <<acc, created, reverted, blind, forced>>
-        \/ /\ c \in 12..13 /\ ~reverted /\ hist' = Append(hist, Op("drain", p, 0, lim, {})) /\ UNCHANGED <<acc, created, reverted, blind, forced>>
-        \/ /\ c \in 14..15 /\ ~reverted /\ hist' = Append(hist, Op("sorted", 2, 0, lim, {})) /\ UNCHANGED <<acc, created, reverted, blind, forced>>
+        \/ /\ c \in 8..9 /\ OkLoc(p, k) /\ hist' = Append(hist, Op("remove", p, k, 0, <<>>)) /\ acc' = acc \cup {<<p, k>>} /\ UNCHANGED <<created, reverted, blind, forced>>
+        \/ /\ c \in 10..11 /\ ~reverted /\ hist' = Append(hist, Op("scan", p, 0, lim, <<>>)) /\ UNCHANGED <<acc, created, reverted, blind, forced>>
+        \/ /\ c \in 12..13 /\ ~reverted /\ hist' = Append(hist, Op("drain", p, 0, lim, <<>>)) /\ UNCHANGED <<acc, created, reverted, blind, forced>>
+        \/ /\ c \in 14..15 /\ ~reverted /\ hist' = Append(hist, Op("sorted", 2, 0, lim, <<>>)) /\ UNCHANGED <<acc, created, reverted, blind, forced>>
         \/ /\ c = 16 /\ ~created /\ ~reverted
-           /\ hist' = Append(hist, Op("create", 3, 0, 0, RandSubs)) /\ created' = TRUE /\ UNCHANGED <<acc, reverted, blind, forced>>
+           /\ hist' = Append(hist, Op("create", 3, 0, 0, subs)) /\ created' = TRUE /\ UNCHANGED <<acc, reverted, blind, forced>>
         \/ /\ c \in 17..18 /\ ~reverted /\ \E l \in acc : l[1] # 3
-           /\ fl \in acc /\ hist' = Append(hist, Op("force", fl[1], fl[2], 0, {})) /\ forced' = forced \cup {fl}
+           /\ fl \in acc /\ hist' = Append(hist, Op("force", fl[1], fl[2], 0, <<>>)) /\ forced' = forced \cup {fl}
            /\ UNCHANGED <<acc, created, reverted, blind>>
         \/ /\ c = 19 /\ ~reverted
-           /\ hist' = Append(hist, Op("revert", 0, 0, 0, {})) /\ reverted' = TRUE /\ created' = FALSE
+           /\ hist' = Append(hist, Op("revert", 0, 0, 0, <<>>)) /\ reverted' = TRUE /\ created' = FALSE
            /\ acc' = {l \in acc : l[1] # 3} /\ UNCHANGED <<blind, forced>>
-        \/ /\ c = 20 /\ OkLoc(p, k) /\ hist' = Append(hist, Op("get", p, k, 0, {})) /\ acc' = acc \cup {<<p, k>>} /\ UNCHANGED <<created, reverted, blind, forced>>
+        \/ /\ c = 20 /\ OkLoc(p, k) /\ hist' = Append(hist, Op("get", p, k, 0, <<>>)) /\ acc' = acc \cup {<<p, k>>} /\ UNCHANGED <<created, reverted, blind, forced>>
 SSpec == SInit /\ [][SNext]_<<acc, created, reverted, blind, forced, hist>>
 Emit == Len(hist) = K + 1 => PrintT(<<"B", ToJson(hist)>>)
 =============================================================================
